@@ -57,7 +57,7 @@ RULE = (
     "1, len-1, len, len+1, start/end +-1, sequence length +-1, huge; edge intervals on same / other / no parent; every enum "
     "member). Non-trivial = distinct (class, parent mode, edge tag, member, argument labels, outcome type)."
 )
-SCOPE = {"quick": {"NR": 1200, "BUDGET": 40}, "thorough": {"NR": 8000, "BUDGET": 100}}
+SCOPE = {"quick": {"NR": 1200, "BUDGET": 40}, "thorough": {"NR": 20000, "BUDGET": 120}}
 FLOOR = {"quick": 100000, "thorough": 400000}
 REQUIRED_MONITORS = ["ctor.refuses", "ctor.exception-class", "ctor.nothing-ill-formed", "ctor.valid-baseline", "edge.answered",
                      "api.exception-class", "api.result-wellformed", "api.refusal-stable"]
